@@ -158,6 +158,43 @@ def marshalRowAttrs (r : RowRecMem) : Attrs :=
 /-- attribute lookup (an element's attributes are a finite map) -/
 def attrOf (a : Attrs) (k : Bytes) : Option Bytes := (a.find? (fun p => p.1 = k)).map (·.2)
 
+/-! ## panes: the sheet view `ws.setPanes` leaves and its rendering (fields 4..5 of the worksheet) -/
+
+/-- `excelize.Panes` (+ `Selection` entries as (activeCell, pane, sqref)) -/
+structure PaneOpts where
+  freeze : Bool
+  split : Bool
+  xSplit : Int
+  ySplit : Int
+  topLeftCell : Bytes
+  activePane : Bytes
+  selection : List (Bytes × Bytes × Bytes)
+  deriving DecidableEq, Repr
+
+def strAttr (k : String) (v : Bytes) : Attrs := if v ≠ [] then [(lit k, escapeText v)] else []
+
+/-- the attributes `encoding/xml` writes for the `xlsxPane` `ws.setPanes` builds, in struct-tag order, all `omitempty`
+(`activePane`, `state` = "frozen" for a frozen pane, `topLeftCell`, `xSplit`, `ySplit`; whole numbers print as integers) -/
+def paneAttrs (p : PaneOpts) : Attrs :=
+  strAttr "activePane" p.activePane ++ (if p.freeze then [(lit "state", lit "frozen")] else [])
+  ++ strAttr "topLeftCell" p.topLeftCell
+  ++ (if p.xSplit ≠ 0 then [(lit "xSplit", itoaInt p.xSplit)] else [])
+  ++ (if p.ySplit ≠ 0 then [(lit "ySplit", itoaInt p.ySplit)] else [])
+
+/-- the `<pane>` element: none when the options neither freeze nor split (`setPanes` removes the pane then) -/
+def paneElem (p : PaneOpts) : Bytes :=
+  if !p.freeze && !p.split then [] else lit "<pane" ++ renderAttrs (paneAttrs p) ++ lit "></pane>"
+
+def selectionElem (s : Bytes × Bytes × Bytes) : Bytes :=
+  lit "<selection" ++ renderAttrs (strAttr "activeCell" s.1 ++ strAttr "pane" s.2.1 ++ strAttr "sqref" s.2.2)
+    ++ lit "></selection>"
+
+/-- fields 4..5 after `ws.setPanes(p)`: the last (here: only) sheet view keeps its attributes `viewAttrs` (external) and
+gets the pane and the selections; `f5` = `sheetFormatPr` (external) -/
+def panesSV (viewAttrs f5 : Bytes) (p : PaneOpts) : Bytes :=
+  lit "<sheetViews><sheetView" ++ viewAttrs ++ lit ">" ++ paneElem p ++ p.selection.flatMap selectionElem
+    ++ lit "</sheetView></sheetViews>" ++ f5
+
 /-- cells that survive a load/save cycle (`trimCell` drops cells with no style, value, type or formula) -/
 def XC.kept (c : XC) : Bool := c.s ≠ 0 || c.v ≠ [] || c.f.isSome || c.t ≠ []
 
